@@ -210,8 +210,9 @@ def run(ctx):
                 ok = True
         ctx.check("R2", mkf, ok, "fast-path-wildcard-guard", "the plain containment shortcut is only taken when no wildcard keyword is accepted",
                   f"_make_keywords_filter returns `{v[:70]}` without checking for '**', '*' or '~*' in the accepted keywords: the wildcards are compared literally and accept nothing", node=r)
-    stab = [n for n in A.body_walk(mkf.node) if isinstance(n, ast.If) and A.unparse(n.test) == "self.unstable_arch not in default_keys"]
-    ctx.require(stab, "_make_keywords_filter: stable-system branch not found")
+    stab_g = M.guarded(mkf.node.body, "self.unstable_arch not in default_keys")
+    ctx.require(stab_g, "_make_keywords_filter: stable-system branch not found")
+    stab = [ast.If(test=stab_g[0][0].test, body=list(stab_g[0][1]), orelse=list(stab_g[0][2]))]
     ok = M.has(stab[0].body, "def $f($r, $v):\n    if not $v:\n        return ($r, self.unstable_arch)\n    return ($r, $v)\n$data = collapsed_restrict_to_data($_, ($f(*$i) for $i in accept_keywords))")
     ctx.check("R2", mkf, ok, "empty-entry-means-unstable", "on a stable system an accept entry without keywords means ~ARCH")
     ctx.check("R2", mkf, M.has(stab[0].orelse, "$data = non_incremental_collapsed_restrict_to_data($_, accept_keywords)"), "unstable-system-plain", "on an unstable system entries are taken as written")
